@@ -112,6 +112,66 @@ theorem missing_writes_and_reloads (P : PemCodec) (L : PemLaw P) (k : Bytes) (hk
       simp [this]
     rw [hp]
 
+/-- One caller alone: the concurrent model is the sequential function. -/
+theorem concurrent_single_is_sequential (P : PemCodec) (k : Bytes) :
+    concurrentFirstStart P [k] = ([⟨some k, false⟩], .file (marshalPrivKeyPem P k)) ∧
+    openOrWrite P (some k) true .missing = .ok (⟨some k, false⟩, .file (marshalPrivKeyPem P k)) :=
+  ⟨rfl, rfl⟩
+
+/-- PARTIAL (concurrent first start): when several callers start on the same missing path at once
+(each has seen "does not exist" before any of them wrote), EVERY caller gets a key and no error,
+the path ends up holding the complete key file of the LAST writer, and that file reloads — whatever
+generator or disk the reload would meet — to the last writer's key. -/
+theorem concurrent_first_start_partial (P : PemCodec) (L : PemLaw P) (ks : List Bytes) (k : Bytes)
+    (hk : k.length = 64) :
+    concurrentFirstStart P (ks ++ [k]) =
+      ((ks ++ [k]).map (fun k => (⟨some k, false⟩ : KeyErr)), .file (marshalPrivKeyPem P k)) ∧
+    ∀ gen' w', openOrWrite P gen' w' (concurrentFirstStart P (ks ++ [k])).2 =
+      .ok (⟨some k, false⟩, .file (marshalPrivKeyPem P k)) := by
+  have hcs : concurrentFirstStart P (ks ++ [k]) =
+      ((ks ++ [k]).map (fun k => (⟨some k, false⟩ : KeyErr)), .file (marshalPrivKeyPem P k)) := by
+    unfold concurrentFirstStart
+    rw [List.foldl_append]
+    have h := concurrent_fold P ks [] .missing (.inl rfl)
+    simp only [List.foldl_cons, List.foldl_nil]
+    simp only [List.nil_append] at h
+    obtain ⟨h1, h2⟩ := h
+    have hstep : ∀ fs, (fs = .missing ∨ ∃ b, fs = .file b) →
+        writeAfterMissing P k fs = (⟨some k, false⟩, .file (marshalPrivKeyPem P k)) := by
+      intro fs hfs
+      rcases hfs with h | ⟨b, h⟩ <;> subst h <;> rfl
+    rw [hstep _ h2, h1]
+    simp
+  refine ⟨hcs, ?_⟩
+  intro gen' w'
+  rw [hcs]
+  exact (missing_writes_and_reloads P L k hk).2 gen' w'
+
+/-- Known finding (keyfile-concurrent-first-start): "a missing file gets a new key that is written
+and reloads to the same peer identity" is FALSE for callers that start on the same missing path at
+the same time: both get a key and no error, but the file holds only the last writer's key, so the
+first caller's identity is lost at its next start. Witness: keys 1…1 and 2…2. Replayed on the real
+code every run (the callers are held at the "generating priv key" log line, after their stat). -/
+theorem concurrent_first_start_false :
+    ¬ (∀ (P : PemCodec), PemLaw P → ∀ ks : List Bytes, (∀ k ∈ ks, k.length = 64) →
+        ∀ k ∈ ks, ∀ gen' w', openOrWrite P gen' w' (concurrentFirstStart P ks).2 =
+          .ok (⟨some k, false⟩, (concurrentFirstStart P ks).2)) := by
+  intro hall
+  have h1 := hall ToyPem toyPem_law ([List.replicate 64 1] ++ [List.replicate 64 2])
+    (by intro k hk; simp at hk; rcases hk with h | h <;> subst h <;> simp)
+    (List.replicate 64 1) (by simp) none false
+  have h2 := (concurrent_first_start_partial ToyPem toyPem_law [List.replicate 64 1] (List.replicate 64 2) (by simp)).2 none false
+  rw [h2] at h1
+  have : List.replicate 64 (2 : UInt8) = List.replicate 64 1 := by
+    have := congrArg (fun r => match r with | Res.ok (ke, _) => ke.key | _ => none) h1
+    simpa using this
+  revert this
+  decide
+
+/-- Non-vacuity: two concurrent first starts — both callers are served, the second key stays. -/
+example : concurrentFirstStart ToyPem [[1], [2]] =
+    ([⟨some [1], false⟩, ⟨some [2], false⟩], .file (marshalPrivKeyPem ToyPem [2])) := by decide
+
 /-- If the new key cannot be written the caller is told (and still gets the key). -/
 theorem missing_write_failure_reported (P : PemCodec) (k : Bytes) :
     openOrWrite P (some k) false .missing = .ok (⟨some k, true⟩, .missing) := rfl
